@@ -11,3 +11,7 @@ import PyIpmi.Props.C03
 #print axioms PyIpmi.Props.C03.rx_filter_total
 #print axioms PyIpmi.Props.C03.single_byte_corruption_rejected
 #print axioms PyIpmi.Props.C03.intact_reply_accepted
+#print axioms PyIpmi.Props.C03.wrapper_verification_in_source
+#print axioms PyIpmi.Props.C03.accepted_frame_is_intact
+#print axioms PyIpmi.Props.C03.transport_single_byte_corruption_rejected
+#print axioms PyIpmi.Props.C03.transport_corruption_asShipped_counterexample
